@@ -101,6 +101,13 @@ Lemma gen_sig_MultistageDistributor : gen_sig "votelib.evaluate.core.MultistageD
 Proof. vm_compute. reflexivity. Qed.
 Lemma gen_sig_PartyListEvaluator : gen_sig "votelib.evaluate.core.PartyListEvaluator" = Some sig_plist.
 Proof. vm_compute. reflexivity. Qed.
+Lemma gen_sig_UnusedVotesDistributor : gen_sig "votelib.evaluate.core.UnusedVotesDistributor" = Some sig_distr.
+Proof. vm_compute. reflexivity. Qed.
+Lemma gen_sig_AdjustedSeatCount : gen_sig "votelib.evaluate.core.AdjustedSeatCount" = Some sig_adj.
+Proof. vm_compute. reflexivity. Qed.
+(* votelib.VotingSystem.evaluate takes only a variadic positional and a variadic keyword parameter: it has no parameter of its own, every argument is passed on; the model treats the
+   node as transparent ([takes (VSys e) k = takes e k]) and binds the call against the generic signature, which is an abstraction - the
+   node is therefore NOT claimed below ([class_of (VSys _) = None]; [gen_sig] reads only signatures that start with the votes) *)
 
 (* the accepts_seats class attribute: FixedSeatCount says False, no other wrapper sets it ([attr_of]) *)
 Lemma gen_attr_wrappers :
@@ -154,6 +161,10 @@ Definition class_of (t : ev) : option string :=
   | Multi _ _ => Some "votelib.evaluate.core.MultistageDistributor"
   | TieBr _ _ => Some "votelib.evaluate.core.TieBreaking"
   | PListC _ | PListO _ _ _ => Some "votelib.evaluate.core.PartyListEvaluator"
+  | VSys _ => None
+  | Unused _ _ _ => Some "votelib.evaluate.core.UnusedVotesDistributor"
+  | AdjLeaf _ _ | AdjAllow _ _ | AdjLevel _ _ _ | AdjLevelC _ _ _ _ | AdjLevelC0 _ _ _ => Some "votelib.evaluate.core.AdjustedSeatCount"
+  | ByConsP _ _ _ => Some "votelib.evaluate.core.ByConstituency"
   end.
 
 (* For EVERY wrapper tree (any nesting): the signature the model binds the root's evaluate() call against, and the
@@ -166,12 +177,13 @@ Proof.
   intros t n H.
   assert (gen_sig n = Some (sig_of t) /\ gen_attr n = Some (attr_of t)) as [Hs Ha].
   { destruct gen_sig_leaves as [L1 [L2 [L3 [L4 [L5 [L6 [L7 [L8 L9]]]]]]]].
-    destruct t as [l k| | | | | | | | | | | | | | |]; try destruct k; simpl in H; inversion H; subst n; clear H; cbn [sig_of attr_of];
+    destruct t as [l k| | | | | | | | | | | | | | | | | | | | | | |]; try destruct k; simpl in H; inversion H; subst n; clear H; cbn [sig_of attr_of];
       (split; [first [ exact L1 | exact L2 | exact L4 | exact L6 | exact L7 | exact L8 | exact L9
                      | exact gen_sig_PreConverted | exact gen_sig_PostConverted | exact gen_sig_FixedSeatCount
                      | exact gen_sig_Conditioned | exact gen_sig_ByConstituency | exact gen_sig_PreApportioned
                      | exact gen_sig_RemovedApportionment | exact gen_sig_ByParty | exact gen_sig_MultistageDistributor
-                     | exact gen_sig_TieBreaking | exact gen_sig_PartyListEvaluator ]
+                     | exact gen_sig_TieBreaking | exact gen_sig_PartyListEvaluator
+                     | exact gen_sig_UnusedVotesDistributor | exact gen_sig_AdjustedSeatCount ]
               | vm_compute; reflexivity ]). }
   split; [exact Hs | split; [exact Ha |]].
   intros s a Hs' Ha'. rewrite Hs in Hs'. rewrite Ha in Ha'. inversion Hs'. inversion Ha'. subst.
